@@ -47,6 +47,20 @@ CLAIMED["C16"] = {
     "technique": "Coq/Flocq proof over source-generated model + reflexivity tie + degenerate-class audit",
 }
 
+CLAIMED["C12"] = {
+    "text": "Read from calibrate.py on every run: both scale-update call sites pass the configured momentum and the output hook recomputes the raw output (tie lemmas); _updated_scale is translated and proved, in exact arithmetic, to be the EMA step with first-batch initialisation, with the closed form for any history under the no-sentinel hypothesis and the averaging (weights sum to one) law. Every running scale of every module in random calibration histories is reproduced bit for bit by folding the generated function in Flocq arithmetic, and compared with the exact EMA oracle.",
+    "note": "Trusted: Coq kernel + vm_compute, Flocq, Reals axioms, gen_calib.py extractor, harness (absmax_scale wrapped to log batch ranges). Known finding F9 (sentinel value 1 re-initialises) is reported as KNOWN-FINDING. The hook control flow (pre-hook, forward, post-hook ordering) is torch's and is exercised, not modelled.",
+    "design": "6/C12",
+    "technique": "Coq proof + call-site extraction tie + bit-exact Flocq fold of scale histories",
+}
+
+CLAIMED["C13"] = {
+    "text": "The action lists of Calibration.__enter__/__exit__, the write-sets of forward / qforward / quantize_weight / quantize_activation / quantizers / dequantizers / optimizers / freeze / quantize and the try/finally of disable_extensions are read from the source on every run; Coq theorem: for EVERY program of nested and sequential contexts, forwards and exceptions at any point, the global hook registries and the function-mode stack are restored and exceptions propagate; purity of inference and quantization entry points is the (reflexivity-checked) emptiness of their syntactic write-sets. Random programs are run on the real torch registries and compared with the model; digests of parameters, buffers, scales, qtypes and inputs are monitored.",
+    "note": "Trusted: Coq kernel; gen_calib.py extractor; Model/Calib.v as the semantics of `with`, hook handles and the mode stack (tied by program runs). PARTIAL: aliasing inside torch kernels (an op mutating its input's storage) is covered by digest monitoring only. Theorems are axiom-free.",
+    "design": "6/C13",
+    "technique": "Coq proof over extracted event lists + reflexivity tie + program runs on real registries",
+}
+
 NOT_YET = {}
 
 
